@@ -80,6 +80,13 @@ func alphabet() []sp.Msg {
 	return al
 }
 
+func clip(b []byte) []byte {
+	if len(b) > 64 {
+		return b[:64]
+	}
+	return b
+}
+
 func region(out []byte, k int) string {
 	if k < 14 {
 		return "header"
@@ -138,6 +145,50 @@ func writeFaults(v valueSpec, idx int) {
 				d := sp.HistoryDetail(v.cfg, "full", v.ops, al, what)
 				d["kind"] = "write-fault"
 				d["fault_at"] = k
+				d["mode"] = mode
+				ctx.Violation(sig, d)
+			}
+			// a failed write must not poison later writes (state kept between calls):
+			// the next write of the same value to a healthy destination is the reference
+			if fw.Fired > 0 && (k%7 == 0 || len(out) < 200) {
+				var again bytes.Buffer
+				n2, err2 := base.Clone().S.WriteTo(&again)
+				if err2 != nil || n2 != int64(len(out)) || !bytes.Equal(again.Bytes(), out) {
+					s2 := "write-after-failed-write:" + mode
+					if ctx.SigCount(s2) < 10 {
+						d := sp.HistoryDetail(v.cfg, "full", v.ops, al, fmt.Sprintf("after a write that failed at offset %d, a write to a healthy destination emits different bytes (%d instead of %d, err %v): %s", k, again.Len(), len(out), err2, engine.Hex(clip(again.Bytes()))))
+						d["kind"] = "write-fault"
+						d["fault_at"] = k
+						d["mode"] = mode
+						ctx.Violation(s2, d)
+					}
+				}
+			}
+		}
+	}
+	// transient failures: exactly one Write call is rejected (or cut short)
+	for _, mode := range []string{"once", "once-short"} {
+		for j := 1; j <= 8; j++ {
+			in := base.Clone()
+			fw := &faultio.FailWriter{At: j, Mode: mode}
+			var err error
+			c := engine.Catch(func() { _, err = in.S.WriteTo(fw) })
+			ctx.Eval()
+			if fw.Fired == 0 {
+				break // fewer than j Write calls
+			}
+			ctx.NontrivialN(1)
+			sig, what := "", ""
+			switch {
+			case c.Panicked:
+				sig, what = c.Sig+":write-fault", "WriteTo panicked: "+c.Value
+			case err == nil:
+				sig, what = "write-nil:transient:"+mode, fmt.Sprintf("Write call %d of the destination failed, later calls succeeded, WriteTo returned nil", j)
+			}
+			if sig != "" && ctx.SigCount(sig) < 10 {
+				d := sp.HistoryDetail(v.cfg, "full", v.ops, al, what)
+				d["kind"] = "write-fault"
+				d["fault_at"] = j
 				d["mode"] = mode
 				ctx.Violation(sig, d)
 			}
